@@ -42,7 +42,7 @@ ASSUMPTIONS = [
     "array values are small integers (complex: Gaussian integers) so pad/crop/bin/index are exact; after a mean-bin with a "
     "non-power-of-two block volume values are compared with the tolerance rule (1e-9, float32 data 5e-4); after "
     "fourier_resample only shape/dtype kind/calibration are compared with the model (values: C06)",
-    "calibration after fourier_resample is compared with relative tolerance 1e-12 (the code divides by the rounded float m/n)",
+    "calibration after fourier_resample is compared with relative tolerance 1e-10 over the whole history (the code divides by the rounded float m/n; measured maximum is reported)",
     "resample factors are dyadic or kept 1e-6 away from a rounding tie of n*f",
     "index expressions hold at most one list in the valid stream; for two-list expressions (outside the quantifier) only the fact that both model and implementation raise is compared",
 ]
@@ -621,7 +621,7 @@ def compare_view(ctx, stream, case, m, iv, flags, what):
     for k in ("origin", "sampling"):
         eq, d = num_close(m[k], iv[k], 0)
         if not eq:
-            if flags["meta_inexact"] and d <= 1e-12:
+            if flags["meta_inexact"] and d <= 1e-10:
                 ctx.stat_max("calibration_rel_distance_after_resample", d)
             else:
                 ctx.disagree(stream, case, {k: m[k]}, {k: iv[k]}, note=f"{what}: {k}")
@@ -724,9 +724,9 @@ def run_history(ctx, drv, new_req, ops_or_gen, stream="history", max_ops=12):
                 if valid:
                     ctx.pred_fail("getitem-raises", f"ds[ix] raised {res['err']} although ds.array[ix] is a valid index leaving at least one axis",
                                   case, observed=res, required={"shape": list(want.shape)})
-            if after != before:
-                ctx.pred_fail(f"raise-mutates-{kind}", f"{kind} raised {res['err']} but changed the receiver", case,
-                              observed=snap_diff(before, after), required="unchanged receiver")
+            # a raising operation is still part of the history: the receiver must stay coherent (whether it stayed
+            # *unchanged* is a model/implementation correspondence matter, compared below)
+            check_coherent(ctx, cur, case, "receiver after a raising operation")
         else:
             check_coherent(ctx, cur, case, "receiver")
             if ret is not None:
@@ -737,10 +737,6 @@ def run_history(ctx, drv, new_req, ops_or_gen, stream="history", max_ops=12):
                                   observed=snap_diff(before, after), required="source bit-identical (data and calibration)")
             if kind == "getitem":
                 check_getitem(ctx, src_arr, src_cal, ret, op, case)
-            if kind == "copy":
-                d = same_result(cur, ret)
-                if d:
-                    ctx.pred_fail("copy-differs", "copy() differs from the source", case, observed=d, required="identical array and calibration")
         # (b) every other live dataset of the history stays bit-identical (aliasing)
         for obj, snap in live:
             now = snapshot(obj)
@@ -766,8 +762,6 @@ def run_history(ctx, drv, new_req, ops_or_gen, stream="history", max_ops=12):
                 if d:
                     ctx.pred_fail(f"inplace-vs-copy-{kind}", "in-place and copying variants produce different array/calibration", case,
                                   observed=d, required="bit-identical array and calibration")
-                if (ip and ret is not None) or (not ip and tret is not None):
-                    ctx.pred_fail(f"inplace-returns-{kind}", "in-place variant returned a dataset", case, observed="Dataset", required=None)
         # continue on the returned dataset or on the receiver
         if ret is not None:
             if op.get("follow"):
